@@ -51,5 +51,8 @@ def build():
                          note="one instance per class: created on the first call, returned by every call, never replaced"))
         reg.add(Contract(f"{OM}:{cls_}._serialize", params={"self": "SingletonObj"}, returns="Payload", props=["C04"], ensures=["result == EMPTY_DICT"],
                          note="the singleton serializes to the empty payload, which _deserialize maps back to the singleton (contracts.origin_deser)"))
+    reg.add(Contract(f"{OM}:EntireSourcePosition.__new__", params={"cls": "py:cls"}, returns="SingletonObj", globals=G, modifies=["INSTANCE"], props=["C04"],
+                     ensures=["INSTANCE is not None", "result == INSTANCE", "implies(old(INSTANCE) is not None, INSTANCE == old(INSTANCE))"],
+                     note="the `whole source` position is one shared object as well"))
     world.trusted_notes.append("`cls._instance` is read and written on the class the constructor is called for (no subclass of the No* classes exists in pyoak); object.__new__ returns a new object")
     return world, lib, reg, []
